@@ -157,6 +157,7 @@ end Tcheran.Props.C03
 #print axioms Tcheran.Props.C03.key_along_path
 #print axioms Tcheran.Props.C03.transposition
 #print axioms Tcheran.Props.C03.distinctB_nodup
+#print axioms Tcheran.Props.C03.nodup_of_map
 #print axioms Tcheran.Props.C03.keyNats_ok
 #print axioms Tcheran.Props.C03.keys_count
 #print axioms Tcheran.Props.C03.keys_nodup
